@@ -20,3 +20,28 @@ fn c14c_normalize_scalar_vs_simd_lanes() {
     kani::cover!(before[i] < off && off > 0, "position older than the offset");
     kani::cover!(before[i] > off && off > 0, "position kept");
 }
+
+// C14-C (whole slice): every element of a table ends up normalised, whatever the alignment of the table: the unaligned
+// prefix and suffix that the SIMD variants hand to the scalar code are part of the model (lowered from the source).
+//@ {"name":"c14c_normalize_whole_slice","props":["C14","C13"],"obligation":"C14-C","timeout":1500,"functions":["lz::lz_encoder::LZEncoder::normalize","lz::lz_encoder::normalize_scalar","lz::lz_encoder::normalize_avx2 / normalize_sse41 / normalize_neon (structure + lanes lowered)"],"bounds":"18 arbitrary i32 positions, any i32 offset, unaligned-prefix length 0..=7 (symbolic); unwind 20","assumes":["models lowered from the current source text; prefix length stands for the table's alignment"]}
+#[kani::proof]
+#[kani::unwind(20)]
+fn c14c_normalize_whole_slice() {
+    let before: [i32; 18] = kani::any();
+    let off: i32 = kani::any();
+    let pre: usize = kani::any();
+    kani::assume(pre <= 7);
+    let mut want = before;
+    LZEncoder::normalize(&mut want, off); // this (no_std) build: the scalar definition on every element
+    let (mut a, mut b, mut c) = (before, before, before);
+    model_normalize_avx2(&mut a, off, pre);
+    model_normalize_sse41(&mut b, off, pre);
+    model_normalize_neon(&mut c, off, pre);
+    let i: usize = kani::any();
+    kani::assume(i < 18);
+    assert!(a[i] == want[i], "C14-C: an element is not normalised like the scalar definition by the AVX2 variant");
+    assert!(b[i] == want[i], "C14-C: an element is not normalised like the scalar definition by the SSE4.1 variant");
+    assert!(c[i] == want[i], "C14-C: an element is not normalised like the scalar definition by the NEON variant");
+    kani::cover!(i >= 16 && pre == 0, "element in the unaligned suffix");
+    kani::cover!(i < pre, "element in the unaligned prefix");
+}
